@@ -396,4 +396,5 @@ def run(ctx: Ctx, tier: str) -> Result:
     borrow(ctx, res, tier, "c17", ("C17.FAN",), "C11.METRIC", "one report per metric definition (every definition x every processor)")
     borrow(ctx, res, tier, "c04", ("C04.INT",), "C11.LIMITS", "fire_count / fire_period are read as integers (-1 honoured), the default only for unparsable text")
     borrow(ctx, res, tier, "c13", ("C13.ADD",), "C11.PUBLISH", "what is published is the service's tracepoints plus the registered ones, each once")
+    borrow(ctx, res, tier, "c04", ("C04.STATE",), "C11.BUDGET", "the tracepoint's own fire count / period are advanced by every started collection")
     return res
